@@ -278,13 +278,17 @@ class DirectoryRecord:
             self._printable_name = self.file_ident
 
         if self.parent is not None:
+            susp_signatures = (b'SP', b'RR', b'CE', b'PX', b'ER', b'ES', b'PN', b'SL', b'NM', b'CL', b'PL', b'TF', b'SF', b'RE', b'AL')
             xa_rec = XARecord()
-            if xa_rec.parse(record[record_offset:], self.len_fi):
+            # An area that opens with a System Use entry holds no XA record; the
+            # bytes 'XA' at its offset 6 then belong to that entry (e.g. to a
+            # Rock Ridge name).
+            if record[record_offset:record_offset + 2] not in susp_signatures and xa_rec.parse(record[record_offset:], self.len_fi):
                 self.xa_record = xa_rec
                 record_offset += len(self.xa_record.record())
 
             if len(record[record_offset:]) >= 2 and \
-               record[record_offset:record_offset + 2] in (b'SP', b'RR', b'CE', b'PX', b'ER', b'ES', b'PN', b'SL', b'NM', b'CL', b'PL', b'TF', b'SF', b'RE', b'AL'):
+               record[record_offset:record_offset + 2] in susp_signatures:
                 self.rock_ridge = rockridge.RockRidge()
 
                 is_first_dir_record_of_root = False
